@@ -480,11 +480,22 @@ func (fr *Frame) runDefers(pos token.Pos) {
 	recs := fr.deferArgs
 	for i := len(recs) - 1; i >= 0; i-- {
 		d := recs[i]
-		if d.ins.Block() != fr.fn.Blocks[0] {
-			unsupported("defer outside entry block in %s", fr.fn)
-		}
 		if d.fn.Clo == nil {
 			unsupported("defer of dynamic function in %s", fr.fn)
+		}
+		if d.ins.Block() != fr.fn.Blocks[0] {
+			// a defer statement on some paths only: the deferred call runs exactly on the paths that executed the
+			// statement (its reach condition); inside a loop it could be registered many times: not supported
+			if fr.info.loopOf[d.ins.Block()] != nil {
+				unsupported("defer inside a loop in %s", fr.fn)
+			}
+			before := fr.cur.clone()
+			saved := fr.curReach
+			fr.curReach = And(fr.curReach, d.reach)
+			_, st, _ := fr.ctx.runFunc(d.fn.Clo.Fn, d.args, d.fn.Clo.Bindings, fr.cur, fr.abs(), fr, frameOpts{prefix: "defer"})
+			fr.curReach = saved
+			fr.cur = mergeStates([]*Term{d.reach, Not(d.reach)}, []*State{st, before})
+			continue
 		}
 		res, st, _ := fr.ctx.runFunc(d.fn.Clo.Fn, d.args, d.fn.Clo.Bindings, fr.cur, fr.abs(), fr, frameOpts{prefix: "defer"})
 		_ = res
